@@ -775,16 +775,17 @@ class Program:
         raise AnchorError("closure %s not found in HIR of %s" % (fn.uid, root))
 
     # ---- inlining of private helpers (robustness against `extract function` refactorings)
-    def inline(self, fn, keep=None, depth=2):
+    def inline(self, fn, keep=None, depth=2, private_only=False):
         """`fn` with its private, non-generic, non-recursive local helpers spliced in (see
         analyzer/inline.py).  `keep` is a regex of callee names whose call sites must stay
-        visible because the calling rule treats them as anchors."""
-        from .inline import inline as _inline
+        visible because the calling rule treats them as anchors.  `private_only`: fold in only
+        functions declared without any visibility modifier (not `pub(crate)` ones)."""
+        from .inline import inline as _inline, private_inlinable
 
         cache = self.__dict__.setdefault("_inl", {})
-        key = (fn.uid, keep, depth)
+        key = (fn.uid, keep, depth, private_only)
         if key not in cache:
-            cache[key] = _inline(self, fn, keep, depth)
+            cache[key] = _inline(self, fn, keep, depth, private_inlinable if private_only else None)
         return cache[key]
 
     # ---- call graph
